@@ -1094,6 +1094,21 @@ func (b *byzantine) forgeBlock(src *node, hf *block.V2HeaderFormat, bf *block.V2
 			if bytes.Equal(bs, orig) {
 				return nil, nil
 			}
+			// A flipped bit does not always make a malformed or unbound block: if the result still parses, has
+			// the same body and differs from the genuine header at most in the timestamp of a height-1 block
+			// (which nothing constrains: there are no commit votes to take a median of), it is simply another
+			// valid block and validators may vote for it. Judged with the harness' own parser.
+			if fh, fb, err := readBlock(bs); err == nil {
+				same := func(a, b *block.V2HeaderFormat) bool {
+					x, y := *a, *b
+					x.Timestamp, y.Timestamp = 0, 0
+					return bytes.Equal(codec.BC.MustMarshalToBytes(&x), codec.BC.MustMarshalToBytes(&y))
+				}
+				if same(fh, hf) && bytes.Equal(codec.BC.MustMarshalToBytes(fb), codec.BC.MustMarshalToBytes(bf)) && (fh.Timestamp == hf.Timestamp || hf.Height == 1) {
+					info.invalid = false
+					info.kind = "byteflip:still-valid"
+				}
+			}
 			return bs, info
 		case "body-of-other-block":
 			pv, ok := b.bodyVotes[h-1]
